@@ -3,6 +3,7 @@ package mon
 import (
 	"bytes"
 	"encoding/json"
+	"errors"
 	"fmt"
 	"reflect"
 
@@ -67,6 +68,9 @@ func normVal(v interface{}) interface{} {
 		return s
 	case primitive.A:
 		return normVal([]interface{}(t))
+	case json.Number:
+		f, _ := t.Float64()
+		return f
 	case int:
 		return float64(t)
 	case int32:
@@ -447,6 +451,21 @@ func init() {
 				Name: "features", Count: h.Fixed(2000, 1200000),
 				Run: func(c *h.Ctx, idx uint64, r *h.Rand) {
 					f := genFeature(r)
+					if r.P(1, 10) {
+						// the documented hooks for another JSON codec, set to a pass-through around encoding/json:
+						// everything must come out exactly as without them
+						geojson.CustomJSONMarshaler, geojson.CustomJSONUnmarshaler = c02codec{}, c02codec{}
+						switch r.Intn(4) {
+						case 0:
+							geojson.CustomJSONUnmarshaler = c02codec{useNumber: true} // numbers arrive as json.Number
+						case 1:
+							geojson.CustomJSONUnmarshaler = nil // only the output side customised
+						case 2:
+							geojson.CustomJSONMarshaler = nil // only the input side customised
+						}
+						defer func() { geojson.CustomJSONMarshaler, geojson.CustomJSONUnmarshaler = nil, nil }()
+						c.Count("cases_with_custom_json_codec_hooks", 1)
+					}
 					d := func() map[string]interface{} {
 						return map[string]interface{}{"feature": fmt.Sprintf("id=%#v bbox=%v props=%#v geom=%T%v", f.ID, f.BBox, map[string]interface{}(f.Properties), f.Geometry, f.Geometry)}
 					}
@@ -638,6 +657,25 @@ func init() {
 			},
 		},
 	})
+}
+
+// c02codec is a pass-through for geojson.CustomJSONMarshaler / CustomJSONUnmarshaler.
+type c02codec struct{ useNumber bool }
+
+func (c02codec) Marshal(v interface{}) ([]byte, error) { return json.Marshal(v) }
+func (k c02codec) Unmarshal(data []byte, v interface{}) error {
+	if !k.useNumber {
+		return json.Unmarshal(data, v)
+	}
+	d := json.NewDecoder(bytes.NewReader(data))
+	d.UseNumber()
+	if err := d.Decode(v); err != nil {
+		return err
+	}
+	if d.More() {
+		return errors.New("trailing data")
+	}
+	return nil
 }
 
 func c02trunc(b []byte) string {
